@@ -17,6 +17,26 @@ def out_value(rng, w, n, r):
         # interior zero chunks
         k = rng.randrange(1, 12)
         return "zero-chunks", (rng.randrange(1, r) * r ** (k * 3) + rng.randrange(r)) % M
+    if c == 3:
+        # digits that are themselves powers of the radix (chunk bases used by the conversion) +- 1
+        v = 0
+        for i in range(n):
+            k = rng.randrange(0, 70)
+            d = r ** k
+            while d >= (1 << w):
+                k -= 1
+                d = r ** k
+            if rng.random() < 0.5:
+                # the largest power of r below 2^(w/2) and below 2^w (half-digit / full-digit chunk bases)
+                lim = (1 << (w // 2)) if rng.random() < 0.5 else (1 << w)
+                d = r
+                while d * r < lim:
+                    d *= r
+            d = max(0, min((1 << w) - 1, d + rng.choice([0, 0, 0, 1, -1])))
+            if rng.random() < 0.35:
+                d = rng.choice([0, rng.randrange(1 << w)])
+            v |= d << (w * i)
+        return "radix-power-digits", v % M
     return value(rng, w, n)
 
 
